@@ -36,7 +36,7 @@ example : conSig { b0 := 1, b1 := 0, direction := 3, d0 := 5, d1 := 2, area := 1
 theorem reorder_preserves_phys {w : World} (hI : Grid.Inv w) (bs : List Name) (cs : List CName)
     (hpre : pre w (.reorder bs cs) = true) :
     PhysEq w (step w (.reorder bs cs)).w ∧ Grid.Inv (step w (.reorder bs cs)).w := by
-  refine ⟨?_, Props.C08.inv_step_core hI _ hpre rfl⟩
+  refine ⟨?_, Props.C08.inv_step hI _ hpre⟩
   simp only [step, Proofs.Grid.ofR_w]
   exact Proofs.Grid.reorder_physEq hI bs cs hpre
 
@@ -46,7 +46,7 @@ theorem reorder_preserves_phys {w : World} (hI : Grid.Inv w) (bs : List Name) (c
 theorem rename_preserves_phys {w : World} (hI : Grid.Inv w) (m : Dict Name Name) (fix : Bool)
     (hpre : pre w (.renameBlocks m fix) = true) :
     PhysEq w (step w (.renameBlocks m fix)).w ∧ Grid.Inv (step w (.renameBlocks m fix)).w := by
-  refine ⟨?_, Props.C08.inv_step_core hI _ hpre rfl⟩
+  refine ⟨?_, Props.C08.inv_step hI _ hpre⟩
   simp only [step, Proofs.Grid.ofR_w]
   exact Proofs.Grid.rename_physEq hI m fix hpre
 
@@ -123,7 +123,7 @@ theorem minc_levels_spec (args : MincArgs) (blkname : Name) (origVol : Rat) (ori
 /-- `minc` as a whole keeps the grid consistent, whatever its arguments (it raises on a duplicate
     matrix block name, leaving a consistent grid behind) -/
 theorem minc_keeps_inv {w : World} (hI : Grid.Inv w) (args : MincArgs) : Grid.Inv (step w (.minc args)).w :=
-  Props.C08.inv_step_core hI _ rfl rfl
+  Props.C08.inv_step hI _ rfl
 
 /-! ### embed -/
 
@@ -138,9 +138,11 @@ theorem embed_conserves_volume {w : World} {sub : Grid} {c : Nat}
     (hc : c < w.cons.length) (hc1 : c ∉ w.connectionlist) (hc2 : c ∉ sub.connectionlist)
     (hhost : (w.cn c).b0 ∈ w.blocklist) (hsb : (w.cn c).b1 ∈ sub.blocklist)
     {w' : World} (hok : embed w sub c = .ok (w', true)) : totalVolume w' = totalVolume w := by
-  have := Proofs.Grid.embed_inv h1 h2 oR oB oC nR hc hc1 hc2 hhost hsb
-  rw [hok] at this
-  exact this.2
+  obtain ⟨w'', fl, e, _, hv, _⟩ := Proofs.Grid.embed_inv h1 h2 oR oB oC nR hc hc1 hc2 hhost hsb
+  rw [hok] at e
+  simp only [Except.ok.injEq, Prod.mk.injEq] at e
+  obtain ⟨rfl, rfl⟩ := e
+  exact hv rfl
 
 namespace Examples
 open Props.C08.Examples
